@@ -4,7 +4,7 @@ import cxx_specs as XS
 
 PROPERTY = "C16"
 LEVEL = "proof"
-EXPLANATION = ""
+EXPLANATION = ("Proof over ghost page-protection state that in secure mode no page of a JIT buffer is ever writable and executable at once and that every write / execute happens under the matching protection, for the virtual-memory wrappers, the JIT compiler's enable* methods, the light and full compiled VMs and the cache's compiler, for every flag combination.")
 TRUSTED = ["stubs/mman_stub.c: ghost model of mmap/mprotect/munmap (the kernel applies what is requested)",
            "non-Linux branches of virtual_memory.c (compiled out)"]
 ASSUMPTIONS = []
